@@ -443,7 +443,7 @@ Definition lex (ol : N -> bool) (s : str) : list ptok * lex_end := lex_all ol (l
    lines count from 1 and there are 1 + (number of line feeds) of them; the column counts the characters read on
    the line, where on every line after the first the line feed that ended the previous line counts as one column
    (reader.go:29-33) and reading the end of the input counts as one more (reader.go:20-23): at most the length of
-   the line + 2. *)
+   the line + 1 on the first line, + 2 on the others. *)
 
 Fixpoint count_nl (s : str) : Z :=
   match s with
@@ -461,4 +461,4 @@ Fixpoint line_len (s : str) (l : Z) : Z :=
   end.
 
 Definition pos_within (s : str) (line col : Z) : Prop :=
-  (1 <= line <= 1 + count_nl s)%Z /\ (0 <= col <= line_len s line + 2)%Z.
+  (1 <= line <= 1 + count_nl s)%Z /\ (0 <= col <= line_len s line + 1 + (if (1 <? line)%Z then 1 else 0))%Z.
